@@ -76,7 +76,7 @@ def docJwkValid (j : Json) : Bool :=
   let f := fun k => stringEntry (j.get? k)
   if f "kty" = "" then false
   else if f "kty" = "RSA" then f "n" ≠ "" && f "e" ≠ ""
-  else f "crv" ≠ "" && f "x" ≠ ""
+  else f "crv" ≠ "" && f "x" ≠ "" && (f "kty" ≠ "EC" || f "y" ≠ "")   -- an EC key has two coordinates (D38)
 
 /-- the JWK / base58 rule at the end of `validatePublicKeys` -/
 def keyMaterialOK (pk : Json) : Bool :=
@@ -97,7 +97,8 @@ def publicKeysOK (pks : List Json) : Bool :=
     keyTypePurposeOK pk && keyMaterialOK pk) &&
   nodupStrings (pks.map fun pk => stringEntry (pk.get? "id"))
 
-/-- `validateURI` -/
+/-- `validateURI`: non-empty and, with its fragment cut off, an HTTP request target as
+    `url.ParseRequestURI` reads it, and a URL as a whole (`requestOK`: the harness's `net/url` table) -/
 def uriOK (orc : UriOracle) (s : String) : Bool := s ≠ "" && orc.requestOK s
 
 /-- `validateServiceEndpoint` -/
@@ -114,7 +115,7 @@ def endpointOK (orc : UriOracle) : Option Json → Bool
 def serviceOK (orc : UriOracle) (s : Json) : Bool :=
   let id := stringEntry (s.get? "id")
   let ty := stringEntry (s.get? "type")
-  id ≠ "" && validID id && ty ≠ "" && !(utf8Len ty > Expected.maxServiceTypeLength) &&
+  id ≠ "" && validID id && ty ≠ "" && !(ty.length > Expected.maxServiceTypeLength) &&
   endpointOK orc (s.get? "serviceEndpoint")
 
 /-- `validateServices` -/
